@@ -61,11 +61,15 @@ class Ctx:
         fn: FuncInfo,
         cls: ClassInfo | None = None,
         typearg: ClassInfo | None = None,
+        consts: dict | None = None,
     ):
         self.pm = pm
         self.fn = fn
         self.cls = cls if cls is not None else fn.cls
         self.typearg = typearg
+        # string constants bound to parameters by the call that led here (only kept for functions that dispatch
+        # with getattr(obj, <parameter>))
+        self.consts: dict[str, str] = dict(consts or {})
         self._locals: dict[str, object] | None = None
 
     def key(self) -> tuple:
@@ -73,6 +77,7 @@ class Ctx:
             self.fn.qualname,
             self.cls.qualname if self.cls else None,
             self.typearg.qualname if self.typearg else None,
+            tuple(sorted(self.consts.items())),
         )
 
     def __repr__(self) -> str:
@@ -212,6 +217,18 @@ class Ctx:
                 bt = self.expr_type(e.func.value)
                 if bt is not None:
                     return bt
+            # self._helper(...) whose return value is a typed expression (return self.transformers[0])
+            if isinstance(e.func, ast.Attribute) and isinstance(e.func.value, ast.Name) and e.func.value.id == "self" and self.cls is not None \
+                    and getattr(self, "_depth", 0) < 3:
+                m = self.cls.resolve(e.func.attr)
+                if m is not None and m is not self.fn and e.func.attr.startswith("_") and not e.func.attr.startswith("__"):
+                    sub = Ctx(self.pm, m, self.cls, self.typearg)
+                    sub._depth = getattr(self, "_depth", 0) + 1
+                    for r in walk_no_nested(m.node):
+                        if isinstance(r, ast.Return) and r.value is not None:
+                            t = sub.expr_type(r.value)
+                            if t is not None:
+                                return t
             # cls._deserialize(dt) / cls(...) in classmethods
             if isinstance(e.func, ast.Name) and e.func.id == "cls" and self.cls is not None:
                 return self.cls
@@ -259,6 +276,17 @@ class Ctx:
         pm = self.pm
         f = call.func
         self.local_types()
+        # getattr(obj, "name")(...) / getattr(obj, <parameter bound to a string constant by the caller>)(...)
+        if isinstance(f, ast.Call) and isinstance(f.func, ast.Name) and f.func.id == "getattr" and len(f.args) == 2:
+            nm = const_str(f.args[1])
+            if nm is None and isinstance(f.args[1], ast.Name):
+                nm = self.consts.get(f.args[1].id)
+            if nm is None:
+                return [Target(None, None, external="getattr(?)", via="dynamic")]
+            synth = ast.Call(func=ast.Attribute(value=f.args[0], attr=nm, ctx=ast.Load()), args=call.args, keywords=call.keywords)
+            ast.copy_location(synth, call)
+            ast.copy_location(synth.func, call)
+            return self.resolve_call(synth)
         # super().m(...)
         if isinstance(f, ast.Attribute) and isinstance(f.value, ast.Call):
             inner = f.value
@@ -384,9 +412,25 @@ class Ctx:
                                 out.append(r[1])
         return out
 
-    def sub(self, t: Target) -> "Ctx":
+    def sub(self, t: Target, call: ast.Call | None = None) -> "Ctx":
         assert t.fn is not None
-        return Ctx(self.pm, t.fn, t.bound, t.typearg)
+        consts = {}
+        if call is not None and _uses_getattr(t.fn):
+            a = t.fn.node.args
+            pos = [x.arg for x in a.posonlyargs + a.args]
+            if pos and t.fn.cls is not None and not t.fn.is_static:
+                pos = pos[1:]
+            for i, x in enumerate(call.args):
+                if i < len(pos):
+                    v = const_str(x) or (self.consts.get(x.id) if isinstance(x, ast.Name) else None)
+                    if v is not None:
+                        consts[pos[i]] = v
+            for k in call.keywords:
+                if k.arg:
+                    v = const_str(k.value) or (self.consts.get(k.value.id) if isinstance(k.value, ast.Name) else None)
+                    if v is not None:
+                        consts[k.arg] = v
+        return Ctx(self.pm, t.fn, t.bound, t.typearg, consts)
 
     # functions passed by reference to apply_ufunc-like callers
     def func_refs(self, call: ast.Call) -> list[Target]:
@@ -418,6 +462,16 @@ class Ctx:
         return outs
 
 
+_GETATTR: dict[int, bool] = {}
+
+
+def _uses_getattr(fn: FuncInfo) -> bool:
+    k = id(fn.node)
+    if k not in _GETATTR:
+        _GETATTR[k] = any(isinstance(n, ast.Call) and isinstance(n.func, ast.Name) and n.func.id == "getattr" for n in ast.walk(fn.node))
+    return _GETATTR[k]
+
+
 def calls_in(fn: FuncInfo) -> list[ast.Call]:
     return [n for n in walk_no_nested(fn.node) if isinstance(n, ast.Call)]
 
@@ -444,4 +498,4 @@ def reachable(pm: PM, start: Ctx, follow_refs: bool = True, limit: int = 4000):
                     raise AnalysisError("call-graph exploration limit hit")
                 yield ctx, call, t, path
                 if t.fn is not None:
-                    stack.append((ctx.sub(t), path + ((ctx, call),)))
+                    stack.append((ctx.sub(t, call), path + ((ctx, call),)))
